@@ -387,6 +387,19 @@ def shoc_depth_names(ctx: Context, rule: str) -> None:
                 why = f"{len(lookups)} name lookups of the form (self.dataset[name] for name in <names>)"
         ctx.check(rule, got == expected, f"{ci.short}.depth_coordinates looks up exactly the format's vertical coordinates {expected}", fi, fi.node if fi is not None else None,
                   construct=f"{ci.short}: names looked up = {got if got is not None else '? (' + why + ')'}")
+        if fi is not None and not fi.is_abstract and len(lookups) == 1:
+            # ... and nothing else decides the answer: every return hands back that lookup (a file whose `zcsed` carries no CF marker still has
+            # its sediment coordinate), and a name is left out only when the dataset does not have it
+            flow = ctx.flow(fi)
+            rets = fi.returns()
+            ok = bool(rets) and all(flow.reaches(r.value, lambda n: n is lookups[0]) for r in rets)
+            ctx.check(rule, ok, f"{ci.short}.depth_coordinates answers with the named lookup on every path", fi, rets[0] if rets else fi.node,
+                      construct=f"{ci.short}: {len(rets)} return(s), {sum(1 for r in rets if flow.reaches(r.value, lambda n: n is lookups[0]))} from the named lookup")
+            var = norm_text(lookups[0].generators[0].target)
+            filters = [norm_text(t) for t in lookups[0].generators[0].ifs]
+            allowed = {f"{var} in self.dataset.variables", f"{var} in self.dataset"}
+            ctx.check(rule, set(filters) <= allowed, f"{ci.short}.depth_coordinates leaves a name out only when the dataset has no such variable", fi, lookups[0],
+                      construct=f"{ci.short}: filters {filters or 'none'}")
         dfi = p.resolve_method(ci, 'depth_coordinate')
         dgot, dwhy = None, ''
         if dfi is not None and not dfi.is_abstract:
@@ -445,6 +458,31 @@ def depth_markers(ctx: Context, rule: str) -> None:
             why = f"markers accepted: {sorted(k for k, _ in found)}; missing {missing or 'none'}; other {extra or 'none'}"
     ctx.check(rule, ok, "a variable is a depth coordinate when it carries any one of: positive up / down, axis Z, cartesian_axis Z, coordinate_type Z, standard_name depth "
               "(each alone is enough; files written by different tools carry different ones)", fi, appends[0] if appends else fi.node, construct=why)
+    # ... and a marked variable is left out for two reasons only: it is the bounds variable of another one, or it lies on a horizontal grid
+    # (bathymetry).  Its size, rank, dtype or name decide nothing: a coordinate of two levels is a depth coordinate.
+    for c in appends:
+        var = norm_text(expand_locals(ctx.flow(fi), c.args[0]))
+        key = norm_text(c.args[0].slice) if isinstance(c.args[0], ast.Subscript) else None
+        m = ast.parse(var, mode='eval').body
+        key = norm_text(m.slice) if isinstance(m, ast.Subscript) else key
+        cls2: list = []
+        fs = facts(ctx, fi, c, expand=True, clauses_out=cls2)
+
+        def about(text: str) -> bool:
+            return var in text or (key is not None and bool(__import__('re').search(rf"\b{__import__('re').escape(key)}\b", text)))
+
+        def allowed(text: str, pol: bool) -> bool:
+            if _marker_of(text, pol, var) is not None:
+                return True
+            if key is not None and not pol and text.startswith(f"{key} in ") and 'bounds' in text:
+                return True
+            if key is not None and pol and text in (f"{key} in self.dataset.variables", f"{key} in self.dataset", f"{key} in self.dataset.variables.keys()"):
+                return True
+            return False
+        other = sorted(f"{t} is {pol}" for t, pol in fs if about(t) and not allowed(t, pol))
+        other_clauses = [[t for t, _ in cl] for cl in cls2 if any(about(t) for t, _ in cl) and not all(_marker_of(t, pol, var) is not None for t, pol in cl)]
+        ctx.check(rule, not other and not other_clauses, "nothing but its markers, being another variable's bounds, or lying on a horizontal grid decides whether a variable is a depth coordinate",
+                  fi, c, construct=f"further conditions on the variable: {(other + [' or '.join(cl) for cl in other_clauses])[:3] or 'none'}")
 
 
 def _marker_of(text: str, pol: bool, var: str):
@@ -790,3 +828,140 @@ def bounds_excluded(ctx: Context, rule: str, qualname: str, what: str) -> None:
                         ok, why = True, f"every selection of the loop is made under `{name.id} not in {b}`"
     ctx.check(rule, ok, f"{what}: a variable that another variable names in its `bounds` attribute is never selected, whatever attributes or encoding it carries", fi,
               helper[0] if helper else fi.node, construct=why)
+
+
+def passes_parameters_on(ctx: Context, rule: str, qualname: str, what: str) -> None:
+    """A thin wrapper - a deprecated alias, a one-step convenience method - stands for the calls it makes: every one of its parameters reaches
+    one of those calls *as given* (the only value arriving there is the parameter itself, not something made from it on some path), and where
+    the called function has a parameter of the same name, it arrives at that one.  A keyword that is no longer forwarded (`unravel_index`
+    without `grid_kind`, `clip` without `buffer`) leaves the caller's request unheard although nothing fails."""
+    fi = ctx.func(qualname)
+    flow = ctx.flow(fi)
+    p = ctx.p
+    a = fi.node.args
+    params = [x.arg for x in a.posonlyargs + a.args + a.kwonlyargs if x.arg not in ('self', 'cls')]
+    pos_ = a.posonlyargs + a.args
+    defaults_ = dict(zip([x.arg for x in pos_[len(pos_) - len(a.defaults):]], a.defaults))
+    defaults_.update({x.arg: d for x, d in zip(a.kwonlyargs, a.kw_defaults) if d is not None})
+    # a parameter whose default is None may arrive as itself or as the default substituted for None (none_default_discipline judges the substitution)
+    defaulted = {k for k, d in defaults_.items() if isinstance(d, ast.Constant) and d.value is None}
+    calls = []
+    for c in calls_in(fi, nested=False):
+        q = p.callee(c, fi)
+        target = p.functions.get(q) if q else None
+        if target is not None:
+            calls.append((c, target))
+    ctx.need(rule, bool(calls), f"{fi.short} calls at least one function of the package", fi)
+    for name in params:
+        found = None
+        changed = None
+        for c, target in calls:
+            tparams = [x for x in target.params if x not in ('self', 'cls')]
+            for pos, arg in enumerate(c.args):
+                if isinstance(arg, ast.Starred):
+                    continue
+                alts = set(flow.alternatives(arg)) if isinstance(arg, ast.Name) else None
+                if isinstance(arg, ast.Name) and ('param', name) in (alts or ()):
+                    if alts == {('param', name)} or name in defaulted:
+                        found = found or (c, target, tparams[pos] if pos < len(tparams) else None)
+                    else:
+                        changed = (c, sorted(str(x) for x in alts))
+            for k in c.keywords:
+                if k.arg is None or not isinstance(k.value, ast.Name):
+                    continue
+                alts = set(flow.alternatives(k.value))
+                if ('param', name) in alts:
+                    if alts == {('param', name)} or name in defaulted:
+                        found = found or (c, target, k.arg)
+                    else:
+                        changed = (c, sorted(str(x) for x in alts))
+        if found is None and changed is not None:
+            ctx.check(rule, False, f"{what}: the parameter `{name}` is passed on as given, whatever path was taken", fi, changed[0],
+                      construct=f"{fi.short}: `{name}` arrives as one of {changed[1][:3]}")
+            continue
+        ctx.check(rule, found is not None, f"{what}: the parameter `{name}` is passed on to the call it stands for", fi, found[0] if found else fi.node,
+                  construct=f"{fi.short}: `{name}` -> {found[1].short + '(' + str(found[2]) + ')' if found else 'not passed on'}")
+        if found is not None and name in [x for x in found[1].params]:
+            ctx.check(rule, found[2] == name, f"{what}: `{name}` arrives at the parameter of the same name", fi, found[0],
+                      construct=f"{fi.short}: `{name}` arrives at `{found[2]}` of {found[1].short}")
+    for special, star in ((a.vararg, 1), (a.kwarg, 2)):
+        if special is None:
+            continue
+        ok = any((star == 1 and any(isinstance(x, ast.Starred) and isinstance(x.value, ast.Name) and x.value.id == special.arg for x in c.args))
+                 or (star == 2 and any(k.arg is None and isinstance(k.value, ast.Name) and k.value.id == special.arg for k in c.keywords))
+                 for c, _t in calls)
+        ctx.check(rule, ok, f"{what}: the extra arguments `{'*' * star}{special.arg}` are passed on", fi, fi.node, construct=f"{fi.short}: {'*' * star}{special.arg}")
+
+
+def none_default_discipline(ctx: Context, rule: str, qualnames: Iterable[str]) -> None:
+    """A parameter whose default is None stands for "not given".  Where such a parameter is assigned inside the function, either a default is
+    substituted - the new value does not read the parameter, and this happens exactly on the paths where the parameter is None - or what was given
+    is converted (a name looked up, a path made a string) - the new value reads the parameter, and this never happens where it is None.
+    An inverted test (`if point_dimension is not None: point_dimension = find_unused_dimension(...)`) discards what the caller asked for and
+    passes None on; nothing fails until much later, if at all."""
+    from .common import facts
+    for qualname in qualnames:
+        fi = ctx.func(qualname)
+        a = fi.node.args
+        pos = a.posonlyargs + a.args
+        defaults = dict(zip([x.arg for x in pos[len(pos) - len(a.defaults):]], a.defaults))
+        defaults.update({x.arg: d for x, d in zip(a.kwonlyargs, a.kw_defaults) if d is not None})
+        none_params = {k for k, d in defaults.items() if isinstance(d, ast.Constant) and d.value is None}
+        sites = 0
+        for st in walk_no_nested(fi.node):
+            if not (isinstance(st, ast.Assign) and len(st.targets) == 1 and isinstance(st.targets[0], ast.Name) and st.targets[0].id in none_params):
+                continue
+            name = st.targets[0].id
+            sites += 1
+            reads = any(isinstance(n, ast.Name) and n.id == name and isinstance(n.ctx, ast.Load) for n in ast.walk(st.value))
+            fs = facts(ctx, fi, st, expand=False)
+            is_none = (f"{name} is None", True) in fs or (f"{name} is not None", False) in fs
+            not_none = (f"{name} is None", False) in fs or (f"{name} is not None", True) in fs
+            if reads:
+                ctx.check(rule, not is_none, f"`{name}` is converted (`{norm_text(st.value)[:50]}`) only where something was given, never where it is None", fi, st,
+                          construct=f"{fi.short}: {name} = {norm_text(st.value)[:50]} under {'`' + name + ' is None`' if is_none else ('`' + name + ' is not None`' if not_none else 'no test of ' + name)}")
+            else:
+                # (another optional parameter that WAS given may take precedence: `axis` over `linear_dimension`)
+                sibling = any((f"{o} is not None", True) in fs or (f"{o} is None", False) in fs for o in none_params - {name}
+                              if any(isinstance(n, ast.Name) and n.id == o for n in ast.walk(st.value)))
+                ctx.check(rule, is_none or sibling, f"the default of `{name}` (`{norm_text(st.value)[:50]}`) is substituted exactly where `{name}` is None: what the caller gave is kept", fi, st,
+                          construct=f"{fi.short}: {name} = {norm_text(st.value)[:50]} under {'`' + name + ' is None`' if is_none else ('`' + name + ' is not None`' if not_none else 'no test of ' + name)}")
+
+
+def refuses_only_when(ctx: Context, rule: str, qualname: str, marker: str, conditions: Iterable[tuple], what: str) -> None:
+    """A refusal that guards a step must stand under its own condition: the `raise` whose text contains `marker` is reached only where one of
+    `conditions` (text, polarity) is known.  An inverted test turns the guard into a refusal of every well-formed input - the suite, which in
+    this environment cannot run the tests that clip meshes, does not notice."""
+    from .common import facts
+    fi = ctx.func(qualname)
+    raises = [n for n in walk_no_nested(fi.node) if isinstance(n, ast.Raise) and marker in norm_text(n)]
+    ctx.need(rule, bool(raises), f"{fi.short} has the refusal `{marker}`", fi)
+    conditions = list(conditions)
+    for r in raises:
+        fs = facts(ctx, fi, r, expand=True)
+        ok = any(c in fs for c in conditions)
+        ctx.check(rule, ok, what, fi, r, construct=f"{fi.short}: `{marker}` raised under {sorted(t if pol else 'not (' + t + ')' for t, pol in fs)[:4]}")
+
+
+def keyword_overrides_kept(ctx: Context, rule: str, qualnames: Iterable[str], keys: Iterable[str]) -> None:
+    """Plot functions fill in defaults for keyword arguments the caller may have given (`array`, `clim`, `transform`): each `kwargs[k] = <default>`
+    stands only where `k` is known not to be among the caller's keywords - an inverted test replaces what the caller asked for and leaves the
+    default out where it is needed (patches drawn in the wrong coordinate system)."""
+    from .common import facts
+    keys = set(keys)
+    for qualname in qualnames:
+        fi = ctx.func(qualname)
+        if fi.node.args.kwarg is None:
+            ctx.check(rule, False, f"{fi.short} takes extra keyword arguments", fi, fi.node)
+            continue
+        kw = fi.node.args.kwarg.arg
+        for st in walk_no_nested(fi.node):
+            if not (isinstance(st, ast.Assign) and isinstance(st.targets[0], ast.Subscript) and isinstance(st.targets[0].value, ast.Name) and st.targets[0].value.id == kw):
+                continue
+            k = const_value(st.targets[0].slice, None)
+            if k not in keys:
+                continue
+            fs = facts(ctx, fi, st, expand=False)
+            ok = (f"'{k}' in {kw}", False) in fs or (f"'{k}' not in {kw}", True) in fs or (f"{kw}.get('{k}') is None", True) in fs
+            ctx.check(rule, ok, f"the default for `{k}` is filled in only where the caller gave no `{k}`", fi, st,
+                      construct=f"{fi.short}: {kw}['{k}'] = {norm_text(st.value)[:40]} under {sorted(t if pol else 'not (' + t + ')' for t, pol in fs if kw in t) or 'no test of the keywords'}")
